@@ -147,7 +147,7 @@ def run():
     drows = [{k: r[k] for k in ("id", "cx", "a", "d", "ta", "st", "q", "r")} for r in fncommon.observe(ctx0, "poly-div", dcases, "std", nproc=1)]
     nd0 = len(ctx0.drift)
     fncommon.validate(ctx0, drows, "Trace_PolyDivide", "std", nshards=1)
-    t.check("clean divide() results explained bit for bit by PolyDivide over doubles", len(ctx0.drift) == nd0 and len(drows) == 40, "%d runs" % len(drows))
+    t.check("clean divide() results explained bit for bit by PolyDivide over doubles", len(ctx0.drift) == nd0 and len(drows) >= 40, "%d runs" % len(drows))
     victim = next(r for r in drows if r["st"] == "ok" and len(r["d"]) >= 2 and len(r["q"]) >= 2)
     bent = dict(victim, q=[[bump(z[0]), z[1]] if j == 0 else z for j, z in enumerate(victim["q"])])
     fncommon.validate(ctx0, [bent], "Trace_PolyDivide", "std2", nshards=1)
@@ -166,6 +166,19 @@ def run():
     hb["obs"]["coefs"][0] = [bump(hb["obs"]["coefs"][0][0]), hb["obs"]["coefs"][0][1]]
     fncommon.validate(ctx0, [hb], "Trace_HermiteDD", "sth2", nshards=1)
     t.check("a Hermite coefficient moved by one ulp is rejected by Trace_HermiteDD", len(ctx0.drift) == nd0 + 1)
+    del ctx0.drift[nd0:]
+    lcases = [c for c in c15.seeded(ctx0, random.Random(10), 120) if c["kind"] == "lagrange" and len(c["xs"]) >= 3][:25]
+    for k, c in enumerate(lcases):
+        c["id"] = k + 1
+    lrows = [{"id": r["id"], "kind": r["kind"], "cx": r["cx"], "xs": r["xs"], "ys": r["ys"], "tol": r["tol"],
+              "obs": {"st": r["obs"]["st"], "coefs": r["obs"].get("coefs", [])}} for r in fncommon.observe(ctx0, "interp", lcases, "stl", nproc=1)]
+    nd0 = len(ctx0.drift)
+    fncommon.validate(ctx0, lrows, "Trace_LagrangeNeville", "stl", nshards=1)
+    t.check("clean lagrange() results explained bit for bit by LagrangeNeville over doubles", len(ctx0.drift) == nd0 and len(lrows) == 25, "%d runs" % len(lrows))
+    lb = copy_row(lrows[0])
+    lb["obs"]["coefs"][-1] = [bump(lb["obs"]["coefs"][-1][0]), lb["obs"]["coefs"][-1][1]]
+    fncommon.validate(ctx0, [lb], "Trace_LagrangeNeville", "stl2", nshards=1)
+    t.check("a Lagrange coefficient moved by one ulp is rejected by Trace_LagrangeNeville", len(ctx0.drift) == nd0 + 1)
     del ctx0.drift[nd0:]
     from checks import c16
     scases = [c for c in c16.seeded(ctx0, random.Random(7), 60) if c["err_case"] == "none" and len(c["xs"]) >= 3][:20]
@@ -227,12 +240,32 @@ def run():
     ctx0.drift = []
     fncommon.validate(ctx0, b2, "Trace_Itp", "stp", nshards=1)
     t.check("one itp abscissa moved outside the bracket -> that run is rejected (drift)", [d["case"] for d in ctx0.drift] == [trs[j]["id"]])
+    # an abscissa of an earlier, wider bracket repeated: the run and the abscissa are chosen so that it lies strictly outside the
+    # bracket the first five evaluations leave (computed here from the recorded signs)
+    def stale(run):
+        ev = [(vlib.pair_to_float(e[0]), vlib.pair_to_float(e[1])) for e in run["evals"]]
+        if len(ev) < 7 or run["ret"] != "ok":
+            return None
+        (xa, fa), (xb, fb) = ev[0], ev[1]
+        for x, f in ev[2:5]:
+            if f == 0.0:
+                return None
+            if (f > 0) == (fa > 0):
+                xa, fa = x, f
+            else:
+                xb, fb = x, f
+        lo, hi = min(xa, xb), max(xa, xb)
+        for q in range(5):
+            if not (lo <= ev[q][0] <= hi):
+                return q
+        return None
+    j, q = next((k, stale(r)) for k, r in enumerate(trs) if stale(r) is not None)
     b2 = copy.deepcopy(trs)
-    b2[j]["evals"] = b2[j]["evals"][:5] + [b2[j]["evals"][2]] + b2[j]["evals"][5:]      # an abscissa of an earlier, wider bracket repeated
+    b2[j]["evals"] = b2[j]["evals"][:5] + [b2[j]["evals"][q]] + b2[j]["evals"][5:]
     b2[j]["n"] += 1
     ctx0.drift = []
     fncommon.validate(ctx0, b2, "Trace_Itp", "stp", nshards=1)
-    t.check("an earlier itp abscissa replayed later (outside the current bracket / radius) -> rejected (drift)", [d["case"] for d in ctx0.drift] == [trs[j]["id"]])
+    t.check("an earlier itp abscissa replayed later (outside the current bracket) -> rejected (drift)", [d["case"] for d in ctx0.drift] == [trs[j]["id"]])
     sc = [c for c in c09.gen(ctx0, rng0, 400) if c["routine"] == "simpson" and not c["cx"] and c["n"] == 40][:15]
     for k, c in enumerate(sc):
         c["id"] = k + 1
